@@ -18,6 +18,7 @@ package key
 //@     invariant forall(i, 0 <= i && i < len(keys),
 //@       exists(c, p0 <= c && c < calls(ssh.ParseAuthorizedKey), keys[i] == ret(ssh.ParseAuthorizedKey, c, 0) && comments[i] == ret(ssh.ParseAuthorizedKey, c, 1) && keys[i] != nil))
 
+//@ import shimagent "github.com/theparanoids/ysshra/agent/shimagent"
 //@ # ---------------------------------------------------------------- C10: casts keep the blob
 //@ # a certificate object handed in directly (not parsed from a blob) must carry its public key
 //@ ghost func wfKey(key ssh.PublicKey) bool = typeof(key) == *ssh.Certificate ==> (pl(key) != 0 && key.(*ssh.Certificate).Key != nil)
@@ -40,6 +41,7 @@ package key
 //@   ensures typeof(key) == *agent.Key ==> result == key.(*agent.Key)
 //@   ensures typeof(key) != *agent.Key ==> result != nil
 //@   ensures typeof(key) != *agent.Key ==> (fresh(result) && contentOf(elems(result.Blob), off(result.Blob), len(result.Blob)) == blobid(key))
+//@   ensures [wrapper-blob-is-copied-by-reference] (typeof(key) == *shimagent.certificate && pl(key) != 0) ==> result.Blob == key.(*shimagent.certificate).Blob
 
 //@ # ---------------------------------------------------------------- C02/C03: a fresh key pair per call
 //@ func createKeyPair(pka)
